@@ -44,6 +44,24 @@ def translate():
     f["children_partition_parent_by_binary_labels"] = ("child1=[indices[i]foriinrange(len(indices))iflabels[i]==0]" in hf
                                                        and "child2=[indices[i]foriinrange(len(indices))iflabels[i]==1]" in hf
                                                        and "labels=child_gmm.predict(data)" in hf and "n_components=2" in hf)
+    # the parent index, the children and the running best improvement are recorded together, under the size guard only
+    hfn = get_function(cl, "HierarchicalGaussianMixture.fit")
+    guard = [n for n in ast.walk(hfn) if isinstance(n, ast.If) and _ns(n.test) == "len(child1)>=min_pointsandlen(child2)>=min_points"]
+    best_names = ("best_split", "best_parent_idx", "best_improvement")
+
+    def assigned(nodes):
+        out = []
+        for b in nodes:
+            for n in ast.walk(b):
+                if isinstance(n, ast.Assign):
+                    out += [_ns(t) for t in n.targets if _ns(t) in best_names]
+        return out
+    forloops = [n for n in ast.walk(hfn) if isinstance(n, ast.For) and _ns(n.target).strip("()") == "idx,indices"]
+    f["best_candidate_recorded_only_under_size_guard"] = (
+        len(guard) == 1 and len(forloops) == 1 and not guard[0].orelse
+        and sorted(assigned(guard[0].body)) == sorted(best_names)
+        and sorted(assigned(forloops[0].body)) == sorted(best_names)
+        and "best_split=(child1,child2)" in hf and "best_parent_idx=idx" in hf and "best_improvement=improvement" in hf)
     f["split_replaces_parent_by_two_children"] = "clusters.pop(best_parent_idx)clusters.extend(best_split)" in hf
     f["loop_bounded_by_max_iterations"] = "whileiteration<self.max_iterations:iteration+=1" in hf
     f["labels_assigned_from_partition"] = "labels[indices]=cluster_idx" in hf and "self.n_clusters_=len(clusters)" in hf \
@@ -196,15 +214,39 @@ Eval vm_compute in map (fun p => (map enc (fst p), map enc (snd p))) [
                  data="ten copies of the point 5")
 
 
-def check_hgmm(run, tier, rng):
+def check_hgmm(run, tier, rng, reps=None, only_groups=False):
     from tempest.cluster import HierarchicalGaussianMixture
-    reps = 25 if tier == "quick" else 300
+    if reps is None:
+        reps = 25 if tier == "quick" else 300
     for t in range(reps):
         nr = np.random.RandomState(rng.randrange(2 ** 31))
         X, w, kind, wk = gen_data(rng, nr)
         n, d = X.shape
         cap = rng.choice([None, 1, 2, 3])
         min_points = None if cap is None else 4 * d
+        if t % 3 == 0 or only_groups:
+            # several groups of unequal size, some with a satellite smaller than min_points: more than one candidate
+            # split per round, and the most "improving" candidate may be the one the size guard must refuse
+            d = rng.choice([1, 2, 3])
+            min_points = rng.choice([2 * d + 2, 8, 12])
+            groups, centre = [], 0.0
+            for g in range(rng.choice([2, 3, 4])):
+                centre += rng.choice([2.0, 6.0, 30.0])
+                c = np.zeros(d)
+                c[0] = centre
+                groups.append(nr.randn(rng.choice([3 * min_points, 60, 120]), d) * 0.3 + c)
+                if rng.random() < 0.6:
+                    c2 = c.copy()
+                    c2[-1] += rng.choice([5.0, 12.0])
+                    groups.append(nr.randn(rng.randrange(1, min_points), d) * 0.05 + c2)
+            order = list(range(len(groups)))
+            rng.shuffle(order)
+            X = np.vstack([groups[i] for i in order])
+            n = len(X)
+            kind = "groups+satellites"
+            wk = rng.choice(["ones", "cyclic"])
+            w = np.ones(n) if wk == "ones" else 1.0 + (np.arange(n) % 5)
+            cap = rng.choice([None, 3, 6, 11])
         norm = bool(t % 2)
         mod = rng.choice([0.5, 1.0, 2.0])
         what = dict(case=t, n=n, d=d, data=kind, weights=wk, cap=cap, normalize=norm, threshold_modifier=mod)
@@ -224,7 +266,7 @@ def check_hgmm(run, tier, rng):
         if cap is not None and K > cap:
             run.fail("cluster-cap-exceeded", f"K={K} > cap={cap}", **what)
         mp = min_points if min_points is not None else 2 * d
-        sizes = np.bincount(lab, minlength=K)
+        sizes = np.bincount(lab[(lab >= 0) & (lab < K)], minlength=K)
         if K > 1 and sizes.min() < mp:
             run.fail("child-below-min-points", f"cluster sizes {sizes.tolist()} with min_points={mp}", **what)
         if len(m.cluster_centers_) != K or len(m.cluster_covariances_) != K or len(m.cluster_weights_) != K:
@@ -269,4 +311,9 @@ def main(tier, seed):
     except Exception:
         import traceback
         run.broken.append(("harness-exception", traceback.format_exc()[-1500:]))
-    run.finish(search=None)
+    def search(r):
+        # something no longer checks and the sweep found nothing new: widen the sweeps that exercise the split loop
+        check_hgmm(r, tier, random.Random(seed + 1), reps=150, only_groups=True)
+        if all(f["key"] == "mean-shrunk-by-1e-10" for f in r.failures):
+            check_gmm(r, "thorough", random.Random(seed + 2))
+    run.finish(search=search)
